@@ -557,7 +557,11 @@ class Compiler:
                 raise common.Broken("diagnostic outside the probes: %s" % err[-300:])
             bad[live[ln]] = m.group(2)
             del live[ln]
-        raise common.Broken("more than 60 diagnosed probes in one unit: %s" % list(bad.items())[:3])
+        # the compiler rejects / dies on more than 60 valid probes: report them (the caller counts every
+        # line that never compiled as rejected) instead of giving up
+        for i in live:
+            bad.setdefault(i, "not compiled: more than 60 other probes of this unit were diagnosed")
+        return "", bad
 
 
 DATA_RE = re.compile(r"^(?:(thread) )?(?:(export) )?data \$(\S+) = align (\d+) \{ (.*)\}\s*$")
@@ -1173,8 +1177,23 @@ def run_literals(ck, cp, targ, stats):
         lines.append("unsigned long long lv_%d = %s; int lt_%d = _Generic((%s), %s);" % (i, txt, i, txt, gen))
         drv.append("lit " + txt)
         drv.append("spec lit %d %d %d %d" % ("u" in s, s.count("l"), dec, v))
-    out, bad = cp.probes(lines, targ, prelude="")
-    data = parse_data(out)
+    # constants without a type must be diagnosed: compiled one by one; the others in units of 4000
+    data, bad = {}, {}
+    good = [i for i, it in enumerate(items) if lit_type(it[1], it[2], it[3]) is not None]
+    for lo in range(0, len(good), 4000):
+        idx = good[lo:lo + 4000]
+        out, bad0 = cp.probes([lines[i] for i in idx], targ, prelude="")
+        data.update(parse_data(out))
+        bad.update({idx[k]: v for k, v in bad0.items()})
+    for i, it in enumerate(items):
+        if lit_type(it[1], it[2], it[3]) is None:
+            rc, out, err = cp.run(lines[i] + "\n", targ)
+            if rc == 1 and "error" in err:
+                bad[i] = err.strip()[-80:]
+            elif rc == 0:
+                data.update(parse_data(out))
+            else:
+                bad[i] = "signal/rc %d" % rc
     mod = ck.run_drv("\n".join(drv) + "\n") if ck.drv_ok else None
     names = {"unsigned int": "unsigned"}
     for i, (txt, v, dec, s) in enumerate(items):
@@ -1406,6 +1425,34 @@ def validate_with_gcc(ck, probes, stats):
             raise common.Broken("reference (Spec/CInt mirror) disagrees with gcc on `%s`: %s vs gcc %d" % (lines[i], o, gv))
 
 
+# ============================================================================ corpus (runs first)
+def run_corpus(ck, cp, stats):
+    d = os.path.join(common.VERIF, "corpus", "C04")
+    if not os.path.isdir(d):
+        return
+    for f in sorted(os.listdir(d)):
+        if not f.endswith(".c"):
+            continue
+        src = open(os.path.join(d, f)).read()
+        head = src.splitlines()[0]
+        for targ in TARGETS:
+            rc, out, err = cp.run(src, targ)
+            ck.count(("corpus", f))
+            stats["corpus"] = stats.get("corpus", 0) + 1
+            m = re.match(r"// expect-error: (.*)", head)
+            if m:
+                good = rc == 1 and re.search(m.group(1), err)
+            else:
+                m = re.match(r"// expect: (.*)", head)
+                good = rc == 0 and re.search(m.group(1), out, re.S)
+            if not good:
+                ck.violation({"kind": "corpus", "witness": "corpus/C04/" + f, "target": targ, "program": src, "rc": rc,
+                              "stdout": out[-400:], "stderr": err[-300:], "expect": head,
+                              "what": "a recorded (repaired) folding defect is back"})
+                stats["violations"] += 1
+                break
+
+
 # ============================================================================ driver
 def run(ck):
     ck.cov["rule"] = ("K-B three-way (cproc-qbe vs Lean model vs C reference) on: 18 binary operators x 13 integer "
@@ -1425,6 +1472,7 @@ def run(ck):
     stats = {"checked": 0, "undefined_dropped": 0, "violations": 0, "oplevel": 0, "contexts": 0, "address": 0,
              "literals": 0, "runtime": 0, "malformed": 0, "gcc_validated": 0}
     all_probes = []
+    run_corpus(ck, cp, stats)
     for ti, targ in enumerate(TARGETS):
         ex = gen_exhaustive(ck, targ)
         if ck.quick and ti > 0:
